@@ -79,6 +79,7 @@ def enumerate_bodies(ctx, label, nodes, kinds, simulate=None, seed=None):
             if k not in seen:
                 seen.add(k)
                 uniq.append(e)
+        uniq.sort(key=lambda e: " ".join(e["toks"]))
         return uniq
     finally:
         rmtree(wd)
